@@ -114,6 +114,12 @@ func runC19(c *core.Ctx) {
 		target = tb.Segments[0]
 		c.Stat("target_middle_segment", 1)
 	}
+	if c.Case%8 == 4 || c.Case%8 == 6 {
+		// the garbage header is the FIRST thing after the 512-byte header of a segment that holds no record yet
+		// (seeded/R8-C19-m1: a damaged segment truncated only if it holds a valid record)
+		target = tb.addEmptyNewest()
+		c.Stat("target_header_only_segment", 1)
+	}
 	keySizes := []uint16{0, 1, 255, 4096, 65535}
 	valSizes := []uint32{1 << 15, 1 << 16, 1 << 20, 1 << 24, 1 << 27, 1 << 30, 1<<31 - 1, uint32(rng.Int31())}
 	extras := []int{0, 1, 10, 64}
